@@ -234,26 +234,32 @@ Fixpoint rq_has_token (hv : bytes) (tok : bytes) (state : nat) (rest : bytes) : 
   match hv with
   | [] => (state =? 2)%nat
   | c :: hv' =>
+    (* what the C does with this byte: (new state, new rest), or the early `return HTP_OK` *)
     let at_start := (length rest =? length tok)%nat in
-    let wait_comma := if (c =? 44)%N then rq_has_token hv' tok 0 tok else rq_has_token hv' tok 1 tok in
-    match state with
-    | 0%nat =>
-      if at_start && htp_is_space c then rq_has_token hv' tok 0 rest
-      else match rest with
-           | x :: rest' =>
-             if (c_tolower c =? x)%N then
-               match rest' with
-               | [] => rq_has_token hv' tok 2 rest'
-               | _ => rq_has_token hv' tok 0 rest'
-               end
-             else wait_comma                       (* v_off = 0; state = 1; fall through to case 1 *)
-           | [] => wait_comma
-           end
-    | 1%nat => if (c =? 44)%N then rq_has_token hv' tok 0 tok else rq_has_token hv' tok 1 tok
-    | _ =>
-      if (c =? 44)%N then true
-      else if negb (htp_is_space c) then rq_has_token hv' tok 1 tok
-      else rq_has_token hv' tok 2 rest
+    let wait_comma := if (c =? 44)%N then (0%nat, tok) else (1%nat, tok) in      (* case 1 (also reached by fall-through) *)
+    let next : option (nat * bytes) :=
+      match state with
+      | 0%nat =>
+        if at_start && htp_is_space c then Some (0%nat, rest)
+        else match rest with
+             | x :: rest' =>
+               if (c_tolower c =? x)%N then
+                 match rest' with
+                 | [] => Some (2%nat, rest')
+                 | _ => Some (0%nat, rest')
+                 end
+               else Some wait_comma                   (* v_off = 0; state = 1; fall through to case 1 *)
+             | [] => Some wait_comma
+             end
+      | 1%nat => Some wait_comma
+      | _ =>
+        if (c =? 44)%N then None
+        else if negb (htp_is_space c) then Some (1%nat, tok)
+        else Some (2%nat, rest)
+      end in
+    match next with
+    | None => true
+    | Some (st', rest') => rq_has_token hv' tok st' rest'
     end
   end.
 Definition htp_header_has_token (hv tok : bytes) : bool := rq_has_token hv tok 0 tok.
